@@ -48,13 +48,11 @@ func (l IdentifierLocation) TypeID(memoryGauge MemoryGauge, qualifiedIdentifier 
 }
 
 func (l IdentifierLocation) QualifiedIdentifier(typeID TypeID) string {
-	pieces := strings.SplitN(string(typeID), ".", 3)
-
-	if len(pieces) < 3 {
-		return ""
-	}
-
-	return pieces[2]
+	return idLocationQualifiedIdentifier(
+		IdentifierLocationPrefix,
+		string(l),
+		typeID,
+	)
 }
 
 func (l IdentifierLocation) String() string {
